@@ -14,7 +14,7 @@ RULE = ("states = canonical (totals dict, Counter hidden state incl. scalar-vs-a
         "across moduli, batch orders and batch splits; non-trivial = the batch contains a key and a non-key sharing a bucket, or repeats")
 ASSUMPTIONS = ["reference model: dict of totals = initial value + occurrences", "samples lie inside the key dtype's range (others are outside the statement)"]
 REQUIRED_FEATURES = ["empty_batch", "only_non_keys", "non_key_colliding", "non_key_empty_bucket", "all_keys_collide", "scalar_nonzero_init",
-                     "array_init", "large_key", "cross_history_comparisons", "depth2", "huge_batch"]
+                     "array_init", "large_key", "cross_history_comparisons", "depth2", "huge_batch", "ndarray_batch"]
 BOUNDS = {"quick": "10 key sets (1-5 keys, and 10 / 17 keys) x moduli {default,1,2,3,4,64} x initial {default, 0, 4, per-key array} (+ int8/uint8/uint64/python-list keys, int32 counts on 4 sets); "
                    "all count histories of depth <= 2 over ~32 batches and depth 3 with the third batch from the 12 simplest (empty, every single universe element, ordered pairs over keys / colliding and "
                    "free non-keys, heavy repetition, only non-keys, large keys)",
@@ -68,6 +68,12 @@ def batches(keys, mod, kdt):
         if tuple(b) not in seen:
             seen.add(tuple(b))
             res.append(b)
+    # the same kind of batch handed over as an ndarray: in the key dtype (keys only / with non-keys), and as uint64 against signed keys
+    kd = "int64" if kdt in (None, "int32c") else kdt
+    res.append({"arr": kd, "v": [keys[0], keys[-1], keys[0]]})
+    res.append({"arr": kd, "v": p + p[:1]})
+    if all(s >= 0 for s in p) and kd == "int64":
+        res.append({"arr": "uint64", "v": p + p[:1] + [u for u in uni if u >= 2 ** 62]})
     return res
 
 
@@ -104,9 +110,12 @@ LAST_INIT = None
 
 
 def expand(b):
-    """batches are lists of samples; long ones are stored run-length encoded as {"rep": [[value, count], ...]}"""
-    if isinstance(b, dict):
+    """batches are lists of samples; long ones are stored run-length encoded as {"rep": [[value, count], ...]};
+    {"arr": dtype, "v": [...]} is a batch handed over as an ndarray of that dtype"""
+    if isinstance(b, dict) and "rep" in b:
         return [v for v, c in b["rep"] for _ in range(c)]
+    if isinstance(b, dict):
+        return list(b["v"])
     return b
 
 
@@ -124,13 +133,27 @@ def replay(cfg, hist):
     keys, mod, kdt, init = cfg
     c = make(keys, mod, kdt, init)
     d = model0(keys, init)
+    global ARR_DAMAGE
+    ARR_DAMAGE = None
     for b in hist:
-        b = expand(b)
-        c.count(list(b))
+        if isinstance(b, dict) and "arr" in b:
+            arr = np.array(b["v"], dtype=b["arr"])
+            before = arr.copy()
+            c.count(arr)
+            c.count(arr)            # the same array object handed over twice
+            if not np.array_equal(arr, before):
+                ARR_DAMAGE = (before.tolist(), arr.tolist())
+            b = list(b["v"]) * 2
+        else:
+            b = expand(b)
+            c.count(list(b))
         for s in b:
             if s in d:
                 d[s] += 1
     return c, d
+
+
+ARR_DAMAGE = None
 
 
 def read_back(c, keys, kdt):
@@ -178,7 +201,10 @@ def run_shard(shard, tier, acc):
 
 def _batch_features(acc, cfg, b):
     keys, mod, kdt, init = cfg
-    if isinstance(b, dict):
+    if isinstance(b, dict) and "arr" in b:
+        acc.feature("ndarray_batch")
+        b = list(b["v"])
+    elif isinstance(b, dict):
         acc.feature("huge_batch")
         b = expand(b)[:0] + [v for v, c in b["rep"]]
     m = mod if mod is not None else 2 * len(keys) - 1
@@ -212,6 +238,9 @@ def _step(acc, cfg, hist, seen, cross):
         acc.fail("count-refused", "counted", r)
         return "bad"
     c, d, key, obs = r
+    if ARR_DAMAGE is not None:
+        acc.fail("callers-sample-array-modified", ARR_DAMAGE[0], ARR_DAMAGE[1])
+        return "bad"
     if init == "ndarray" and LAST_INIT is not None and LAST_INIT.tolist() != [10 * (i + 1) for i in range(len(keys))]:
         acc.fail("callers-initial-value-array-modified", [10 * (i + 1) for i in range(len(keys))], LAST_INIT.tolist())
         return "bad"
@@ -221,7 +250,7 @@ def _step(acc, cfg, hist, seen, cross):
         acc.fail("totals-wrong", exp, obs)
         return "bad"
     if cross is not None:
-        ms = tuple(sorted(collections.Counter(s for b in hist for s in expand(b) if s in d).items()))
+        ms = tuple(sorted(collections.Counter(s for b in hist for s in (expand(b) * (2 if isinstance(b, dict) and "arr" in b else 1)) if s in d).items()))
         prev = cross.get(ms)
         if prev is None:
             cross[ms] = obs
